@@ -56,7 +56,7 @@ def run(ctx):
         ok = isinstance(res, Arr) and res.axes == (ReqS, ReqC, PC)
         ctx.check(ok, 'C06.A1', gf, lab + ' axes', '%s: features on (requested spikes, requested channels, components)' % lab, '%s: features are %s' % (lab, res))
         ctx.check(isinstance(res, Arr) and isinstance(res.elem, Q) and res.elem.d() == {'f': 1}, 'C06.A1', gf, lab + ' values', '%s: the values are stored feature values' % lab,
-                  '%s: the values are %s' % (lab, getattr(res, 'elem', res)))
+                  '%s: the values are %s' % (lab, getattr(res, 'elem', res)), value=getattr(res, 'elem', res))
         S = Shape(repo, selfattrs=model_attrs(feat_rows=rows), sigs=COMMON_SIGS, inline_depth=2)
         res = S.result(gtf, {'self': UNK, 'spike_ids': req_s})
         nrep += flush(ctx, S, 'get_template_features, ' + lab)
@@ -116,8 +116,12 @@ def run(ctx):
             tri('C06.A1', dens[0], g, b_, 'densification over the requested channels', 'from_sparse is called as `%s`, not with (features, column table, requested channels)' % unparse(dens[0]),
                 'arguments of from_sparse not recognised')
     dens = [c for c in gtf.calls() if dotted(c.func) == 'from_sparse']
-    ctx.check(bool(dens) and unparse(dens[0].args[2]).replace(' ', '') == 'np.arange(self.n_templates)', 'C06.A2', gtf, dens[0] if dens else 'get_template_features',
-              'template features are densified over all templates 0..n_templates-1', 'template features are not densified over np.arange(n_templates)')
+    dens = [(f_, c) for f_ in repo.transparent_closure(gtf) for c in f_.calls() if dotted(c.func) == 'from_sparse' and len(c.args) + len(c.keywords) >= 3]
+    req = dens[0][0].expand(q.arg(dens[0][1], 2, 'channel_ids')) if dens and q.arg(dens[0][1], 2, 'channel_ids') is not None else None
+    ctx.tri(req is not None and Pat().any(['np.arange(self.n_templates)', 'np.arange(0, self.n_templates)', 'np.arange(len(self.template_ids))' if False else 'np.arange(self.n_templates, dtype=ANY)'], req),
+            req is not None and Pat().any(['np.arange(E_n)', 'np.arange(E_a, E_n)', 'self.template_ids', 'np.unique(ANY)'], req) and not Pat().any(['np.arange(self.n_templates)', 'np.arange(0, self.n_templates)'], req),
+            'C06.A2', gtf, dens[0][1] if dens else 'get_template_features', 'template features are densified over all templates 0..n_templates-1',
+            'template features are not densified over np.arange(n_templates) (`%s`)' % (unparse(req) if req is not None else ''), 'the template list of the densification was not recognised')
     # ---- A3 from_sparse / _index_of bodies (three-valued: recognised good form -> holds, recognised wrong form -> violated, else undecided)
     def tri(good, bad, node, ok_msg, bad_msg, where):
         if good:
@@ -244,13 +248,19 @@ def run(ctx):
     res = S.result(pp, {'x': Arr((Spk, Samp, Ch), RAW), 'pcs': Arr((PC, Samp, Ch), Q())})
     nrep += flush(ctx, S, '_project_pcs')
     ctx.check(isinstance(res, Arr) and res.axes == (Spk, Ch, PC), 'C06.A4', pp, '_project_pcs', 'projection contracts samples and returns (spike, channel, component)',
-              '_project_pcs returns %s, expected (spike, channel, component) with the sample axis contracted' % res)
+              '_project_pcs returns %s, expected (spike, channel, component) with the sample axis contracted' % res, value=res)
     cf = repo.func(M, 'compute_features')
     c = [x for x in cf.calls() if dotted(x.func) == '_compute_pcs']
-    ctx.check(bool(c) and len(c[0].args) == 2 and const_value(c[0].args[1]) == 3 and unparse(c[0].args[0]) == cf.params[0], 'C06.A4', cf, c[0] if c else 'compute_features',
-              'three leading components of the given waveforms', 'compute_features does not use the 3 leading components of its waveforms')
+    npc = cf.expand(q.arg(c[0], 1, 'npcs')) if c and q.arg(c[0], 1, 'npcs') is not None else None
+    a0_ = cf.expand(c[0].args[0]) if c and c[0].args else None
+    ctx.tri(bool(c) and const_value(npc) == 3 and a0_ is not None and Pat().m(cf.params[0], a0_),
+            bool(c) and ((npc is not None and isinstance(const_value(npc), int) and const_value(npc) != 3) or (a0_ is not None and isinstance(a0_, ast.Name) and a0_.id != cf.params[0] and a0_.id in cf.params)),
+            'C06.A4', cf, c[0] if c else 'compute_features', 'three leading components of the given waveforms', 'compute_features does not use the 3 leading components of its waveforms',
+            'the call computing the principal components was not recognised')
     pj = [x for x in cf.calls() if dotted(x.func) == '_project_pcs']
-    ctx.check(bool(pj) and unparse(pj[0].args[0]) == cf.params[0], 'C06.A4', cf, pj[0] if pj else 'compute_features', 'the same waveforms are projected on their components', 'the projected data are not the given waveforms')
+    pj0 = cf.expand(pj[0].args[0]) if pj and pj[0].args else None
+    ctx.tri(pj0 is not None and Pat().m(cf.params[0], pj0), pj0 is not None and isinstance(pj0, (ast.Name, ast.Subscript)) and not Pat().m(cf.params[0], pj0), 'C06.A4', cf,
+            pj[0] if pj else 'compute_features', 'the same waveforms are projected on their components', 'the projected data are not the given waveforms', 'the projection call was not recognised')
     cp_ = repo.func(M, '_compute_pcs')
     PC_ = Pat(cp_)
     eig = PC_.stmt('(V_vals, V_vecs) = np.linalg.eigh(ANY)') or PC_.stmt('(V_vals, V_vecs) = np.linalg.eig(ANY)')
